@@ -285,6 +285,10 @@ async def drive(b: Build, shard, res: Result):
                 scenarios.append({"n_req": 1, "n_resp": 1, "src": "list", "error": grpclib.const.Status.NOT_FOUND, "error_after": 0})
                 if m["ss"]:
                     scenarios.append({"n_req": 1, "n_resp": 2, "src": "list", "error": grpclib.const.Status.ABORTED, "error_after": 1})
+                if m["cs"] and shard["item"].get("kind") == "svcmatrix" and m["proto"] in ("StreamStream", "StreamUnary"):
+                    # LONG request streams (hundreds of small messages) from every kind of source
+                    for src, n_long in (("list", 129), ("generator", 300), ("async-generator", 257), ("list", 64)):
+                        scenarios.append({"n_req": n_long, "n_resp": 1 if not m["ss"] else 2, "src": src})
                 if m["cs"] and m["ss"] and shard["item"].get("kind") == "svcmatrix" and m["proto"] == "StreamStream":
                     # volume beyond the HTTP/2 flow-control windows: sending and receiving must overlap
                     scenarios.append({"n_req": 24, "n_resp": 24, "src": "list", "bulk": 400000})
